@@ -3,6 +3,7 @@ use crate::Opts;
 use serde_json::Value;
 
 pub mod c08;
+pub mod c12;
 pub mod c13;
 pub mod c14;
 
@@ -11,6 +12,7 @@ pub type ReplayResult = Result<Vec<String>, (Vec<String>, String, String)>;
 pub fn run(prop: &str, opts: &Opts) -> Vec<Report> {
     match prop {
         "C08" => c08::run(opts),
+        "C12" => c12::run(opts),
         "C13" => c13::run(opts),
         "C14" => c14::run(opts),
         _ => crate::explore::machinery(&format!("unknown property {}", prop)),
@@ -20,6 +22,7 @@ pub fn run(prop: &str, opts: &Opts) -> Vec<Report> {
 pub fn replay(prop: &str, case: &Value) -> ReplayResult {
     match prop {
         "C08" => c08::replay(case),
+        "C12" => c12::replay(case),
         "C13" => c13::replay(case),
         "C14" => c14::replay(case),
         _ => crate::explore::machinery(&format!("unknown property {}", prop)),
